@@ -103,6 +103,7 @@ def find_lexicons(
 ) -> Iterator[_Lexicon]:
     cur = connect().cursor()
     found = False
+    seen: set[int] = set()  # a lexicon matched by several specifiers is selected once
     for specifier in lexicon.split():
         # a bare id selects one lexicon: the most recently added one
         # with that id; anything else selects every match
@@ -120,8 +121,10 @@ def find_lexicons(
         '''
         params = {'specifier': specifier, 'language': lang}
         for row in cur.execute(query, params):
-            yield row
             found = True
+            if row[0] not in seen:
+                seen.add(row[0])
+                yield row
     # only raise an error when the query specifies something
     if not found and (lexicon != '*' or lang is not None):
         raise wn.Error(
